@@ -6,4 +6,6 @@ INVARIANT BalanceIsSumOfAccounts
 INVARIANT NoSpentListed
 INVARIANT OneCoinPerOutpoint
 INVARIANT NoDoubleSpend
+PROPERTY PruneRule
+PROPERTY AgainRule
 CHECK_DEADLOCK FALSE
